@@ -63,8 +63,9 @@ def project(trace):
 def gen(rng, i, cancels=True):
     n = rng.choice([1, 1, 2, 3])
     if rng.random() < 0.7:
-        pol = {"kind": "exc", "max_attempts": rng.choice([1, 2, 3, 4]), "sleep": rng.choice([100, 250]),
-               "exponent": rng.choice([1, 2, 3]), "max_sleep": rng.choice([150, 400, 120000])}
+        # (falsy parameters are values like any other: a zero back-off, a zero cap, no attempts at all)
+        pol = {"kind": "exc", "max_attempts": rng.choice([1, 2, 3, 3, 4, 0]), "sleep": rng.choice([100, 250, 100, 0]),
+               "exponent": rng.choice([1, 2, 3, 0]), "max_sleep": rng.choice([150, 400, 120000, 0])}
     else:
         dec = []
         for _ in range(rng.choice([1, 2, 3])):
@@ -134,6 +135,14 @@ def run(ck, cancels=False):
                               prefix=[["env1", 10000]])
     swept += _core.phase_tasks("retry", pp, [("env1", "env2"), ("env2", "env1")],
                                range(1, 50, 6 if quick else 1), range(1, 40, 7 if quick else 1), facts=facts_of(pp))
+    # a delegate completion that looks its submission up while an earlier submission is being removed
+    pq = {"flavour": "manual", "policy": POLICY,
+          "jobs": [{"script": ["V"], "S": 0, "C": False}, {"script": ["E", "V"], "S": 0, "C": False},
+                   {"script": ["E", "V"], "S": 0, "C": False}],
+          "dur": 300, "horizon": 4000}
+    swept += _core.phase_tasks("retry", pq, [("env2", "env1"), ("env3", "env1")],
+                               range(1, 30 if quick else 60), [100, 300] if quick else range(10, 310, 10),
+                               facts=facts_of(pq))
     ck.run_and_validate(swept, TRACE, nontrivial=lambda t, r: True)
     ck.assumptions += [
         "back-off arithmetic in integer ticks (1 ms); attempt end = InvokeEnd; SLACK = 3 ticks",
